@@ -856,6 +856,12 @@ class Histories(Family):
                     bad = [kk for kk in set(after) | set(cur) if kk not in touched and after.get(kk) != cur.get(kk)]
                     if bad:
                         return ("other-key-influenced", f"{where}: pins of {bad} changed by an operation that did not name them")
+                if k == "import_bad" and st.get("raised") and after != cur:
+                    # an import that FAILED is not a trust-store operation of the history: whoever was pinned before it still is,
+                    # and the connections that follow are judged against those pins
+                    return ("pins-changed-by-failed-import", f"{where}: the import raised {st['raised']} yet the pins changed from {sorted(cur.items())} to "
+                                                             f"{sorted(after.items())}: hosts pinned before the failed import are no longer checked against their pin; "
+                                                             f"steps before: {compact(case['ops'][:i])}")
                 cur = after
         return None
 
